@@ -2013,6 +2013,11 @@ class Cluster(object):
         with host.lock:
             was_up = host.is_up
 
+            if expect_host_to_be_down and host._currently_handling_node_up:
+                # a failure reported by an on_up still in progress: that on_up notifies the
+                # policies and restarts the reconnector itself when it has failed
+                return
+
             # ignore down signals if we have open pools to the host
             # this is to avoid closing pools when a control connection host became isolated
             if self._discount_down_events and self.profile_manager.distance(host) != HostDistance.IGNORED:
